@@ -48,7 +48,12 @@ def betweenness_bin(G):
     # calculate NSP and L
     while np.any(NSPd):
         d += 1
-        NPd = np.dot(NPd, G)
+        # extend SHORTEST d-paths only: a walk that reaches a pair for the first
+        # time in round d+1 is a shortest d-path plus one connection, so the
+        # entries kept below are the same - but the counts of ALL d-walks grow
+        # like (k-1)^d next to a dense block of k nodes, reach inf after ~180
+        # rounds (k = 50), inf * 0 = nan, and `while np.any(NSPd)` never ends.
+        NPd = np.dot(NSPd, G)
         NSPd = NPd * (L == 0)
         NSP += NSPd
         L = L + d * (NSPd != 0)
